@@ -1,4 +1,5 @@
 import N2k.Model.Send
+import N2k.Model.Claim
 /-!
 # ISO request (PGN 59904) responder of `tNMEA2000` (`src/NMEA2000.cpp`), message level
 
@@ -14,7 +15,8 @@ Transcription map
 * `SetN2kPGN126998` (`AddVarStr`, 7-bit strings)  → `configData` (`varStr`)
 * `SendProductInformation` / `SendConfigurationInformation` → `sendProductInformation` / `sendConfigurationInformation`
 * `Set/ClearPending…Information`, `SendPendingInformation` → `afterProd` / `afterConf` (`updateHasPending`), `sendPendingInformation` (`pendingDev`)
-* `HandleReceivedSystemMessage` (59904 case) + `ParseMessages` → `handleReceived`, `pollRq`
+* `HandleReceivedSystemMessage` (59904 case) + `ParseMessages` → `handleReceived`, `pollRq` (`pollWith`)
+* a received address claim (60928) → `handleReceivedClaim` / `pollClaim`, reusing `Claim.handleClaim`
 
 The messages are handed to `Send.sendMsg` (the already modelled `SendMsg`), so the state threads through
 the claim-window gate, the sequence counters, the send queue and the scripted driver.
@@ -308,17 +310,31 @@ def pendingAll : List Nat → Node → Node × List OutMsg
 def sendPendingInformation (n : Node) : Node × List OutMsg :=
   pendingAll (List.range n.st.devs.length) n
 
-/-- one `ParseMessages()` of an open node with at most one received ISO request and no heartbeat due:
-`SendFrames`, `SendPendingInformation`, the request, then `SendHeartbeat`'s claim-timer bookkeeping -/
-def pollRq (n : Node) (rq : Option Msg) (h : Option Handler) : Node × List OutMsg :=
+/-- one `ParseMessages()` of an open node with at most one received system message (`act`) and no heartbeat due:
+`SendFrames`, `SendPendingInformation`, the message, then `SendHeartbeat`'s claim-timer bookkeeping -/
+def pollWith (n : Node) (act : Node → Node × List OutMsg) : Node × List OutMsg :=
   let fl := sendFrames n.st.ring n.st.drv
   let n1 := { n with st := { n.st with ring := fl.1, drv := fl.2.1 } }
-  let r := andThen (sendPendingInformation n1) fun n2 =>
-    match rq with
-    | none => (n2, [])
-    | some m => handleReceived n2 m h
+  let r := andThen (sendPendingInformation n1) act
   let s := r.1.st
   let devs := if s.claimMode then s.devs.map (fun d => (isAddressClaimStarted s.flavor s.now d).1) else s.devs
   ({ r.1 with st := { s with devs := devs } }, r.2)
+
+/-- a poll with at most one received ISO request -/
+def pollRq (n : Node) (rq : Option Msg) (h : Option Handler) : Node × List OutMsg :=
+  pollWith n fun n2 =>
+    match rq with
+    | none => (n2, [])
+    | some m => handleReceived n2 m h
+
+/-- `HandleReceivedSystemMessage` for a received address claim (PGN 60928) from `src` with NAME `name`:
+`HandleISOAddressClaim` of `Model/Claim.lean` (defend, or move on — possibly to the null address — and
+`StartAddressClaim`, which arms the 250 ms window) -/
+def handleReceivedClaim (n : Node) (src name : Nat) : Node :=
+  if n.st.claimMode then { n with st := (Claim.handleClaim { s := n.st } src name).s } else n
+
+/-- a poll with one received address claim -/
+def pollClaim (n : Node) (src name : Nat) : Node × List OutMsg :=
+  pollWith n fun n2 => (handleReceivedClaim n2 src name, [])
 
 end N2k.IsoRequest
